@@ -564,8 +564,10 @@ def sch_arms(ctx: Ctx) -> RuleResult:
                 covered.setdefault(x, kind)
             info = e.data["info"]
             if kind == "async":
-                okw = info["wrapped"] is not None and not info["awaited"]
-                r.ob(okw, {"async dispatch wrapped in": info["wrapped"], "awaited in place": info["awaited"]})
+                direct = info.get("callee") in ctx.P.funcs and _returns_pool_future(ctx.P.funcs[info["callee"]])
+                okw = (info["wrapped"] is not None or direct) and not info["awaited"]
+                r.ob(okw, {"async dispatch wrapped in": info["wrapped"], "wrapper returns the submission's future": direct,
+                           "awaited in place": info["awaited"]})
                 if not okw:
                     r.violate(f"{m.fn.short}: async-thread dispatch is awaited in place / not made a task", _where(m, e.node),
                               "the scheduler would block on the node instead of keeping it in flight", norm_src(info["stmt"]))
@@ -700,6 +702,37 @@ def sch_freshpick(ctx: Ctx) -> RuleResult:
                 r.violate(f"{m.fn.short}: runnable set can grow between selection and dispatch ({bad[0].kind})",
                           _where(m, bad[0].node), "a node that became ready after the selection, possibly with a greater "
                           "compound priority, is not considered: the stale choice is dispatched", p.describe())
+    return r
+
+
+def sch_stalepick(ctx: Ctx) -> RuleResult:
+    """After a node has run on the scheduler's own thread (an unbounded time), finished pooled nodes are collected before the
+    next selection - otherwise a node whose dependencies finished meanwhile is not among the candidates."""
+    r = RuleResult("SCH-STALEPICK")
+    m = model(ctx)
+    ps = _sane(m, r)
+    pooled = any(info["kind"] in ("pool", "async") for info in m.dispatch.values())
+    inline = []
+    for p in ps:
+        for i, e in _dispatch_events(p):
+            if e.data["kind"] == "inline" and not any(x.kind == "WAIT" for x in p.events[i + 1:]):
+                inline.append(p)
+    picks = []
+    for p in ps:
+        si = p.index("SELECT")
+        if si >= 0 and not any(x.kind == "WAIT" for x in p.events[:si]):
+            picks.append(p)
+    if not inline or not pooled:
+        r.ob(True, {"inline dispatch that is not followed by a collection": len(inline), "pooled dispatches": pooled})
+        return r
+    r.ob(not picks, {"iterations that run a node inline and loop back without collecting": len(inline),
+                     "iterations that select without collecting finished futures first": len(picks)})
+    if picks:
+        sel = picks[0].events[picks[0].index("SELECT")]
+        r.violate("scheduler: selection after an inline node uses the ready set computed before that node ran", _where(m, sel.node),
+                  "pooled nodes that finished while a main-thread node was running are only collected when the scheduler blocks "
+                  "(pool full / nothing runnable): their successors, ready by then and possibly of higher priority, do not compete "
+                  "for the next pick, and a free worker stays idle", picks[0].describe())
     return r
 
 
@@ -1005,6 +1038,23 @@ def sch_active(ctx: Ctx) -> RuleResult:
     raise Undecided(f"{f.short}: activation decision not recognised: {norm_src(final)}")
 
 
+def _returns_pool_future(f: FuncInfo) -> bool:
+    """A plain function every return of which hands back the future of a run_in_executor submission made in it."""
+    if f.is_async:
+        return False
+    rets = [n for n in iter_own_nodes(f.node) if isinstance(n, ast.Return)]
+    if not rets:
+        return False
+    for rt in rets:
+        v = rt.value
+        if isinstance(v, ast.Name):
+            asg = [n for n in iter_own_nodes(f.node) if isinstance(n, ast.Assign) and dotted(n.targets[0]) == v.id]
+            v = asg[0].value if len(asg) == 1 else None
+        if not (isinstance(v, ast.Call) and isinstance(v.func, ast.Attribute) and v.func.attr == "run_in_executor"):
+            return False
+    return True
+
+
 def sch_taskdone(ctx: Ctx) -> RuleResult:
     """The task the scheduler tracks for an async-thread node completes only when the node function has completed."""
     r = RuleResult("SCH-TASKDONE")
@@ -1014,10 +1064,16 @@ def sch_taskdone(ctx: Ctx) -> RuleResult:
         raise Undecided("no async dispatch found")
     for q in sorted(callees):
         f = ctx.P.funcs[q]
-        r.ob(f.is_async, {"async dispatch wrapper": f.short, "is a coroutine function": f.is_async})
-        if not f.is_async:
-            raise Undecided(f"{f.short}: async dispatch wrapper is not a coroutine function (form not modelled)")
+        returned = _returns_pool_future(f)
+        r.ob(f.is_async or returned, {"async dispatch wrapper": f.short, "is a coroutine function": f.is_async,
+                                      "returns the pool submission's future": returned})
+        if not f.is_async and not returned:
+            raise Undecided(f"{f.short}: async dispatch wrapper is neither a coroutine function nor returns the future of its pool "
+                            f"submission (form not modelled)")
         awaited = {id(n.value) for n in iter_own_nodes(f.node) if isinstance(n, ast.Await)}
+        if not f.is_async:
+            # the future handed back IS the submission's future: it completes when the node function has completed
+            awaited |= {id(n.value) for n in iter_own_nodes(f.node) if isinstance(n, ast.Return) and n.value is not None}
         calls = [n for n in iter_own_nodes(f.node) if isinstance(n, ast.Call) and isinstance(n.func, ast.Attribute)
                  and n.func.attr == "run_in_executor"]
         # the wrapper submits to the pool it is given
@@ -1115,5 +1171,5 @@ RULES = {
     "SCH-SEQ-PRE": sch_seq_pre, "SCH-SEQ-POST": sch_seq_post, "SCH-PRIO": sch_prio, "SCH-FRESHPICK": sch_freshpick,
     "SCH-WAITSITES": sch_waitsites, "SCH-WAITMODE": sch_waitmode, "SCH-GUARD": sch_guard, "SCH-MIXWAIT": sch_mixwait,
     "SCH-PROGRESS": sch_progress, "SCH-EXIT": sch_exit, "SCH-EMPTYWAIT": sch_emptywait, "SCH-DEACT": sch_deact,
-    "SCH-ACTIVE": sch_active, "SCH-POOLSIZE": sch_poolsize, "SCH-TASKDONE": sch_taskdone, "SCH-BIDICT": sch_bidict,
+    "SCH-ACTIVE": sch_active, "SCH-POOLSIZE": sch_poolsize, "SCH-TASKDONE": sch_taskdone, "SCH-BIDICT": sch_bidict, "SCH-STALEPICK": sch_stalepick,
 }
